@@ -150,7 +150,7 @@ func (e *run) modelChecks(c Case, w *world, local, cluster Outcome, calls []clus
 		for _, q := range chain[i:] {
 			levels = append(levels, levelJSON(q))
 		}
-		req := map[string]interface{}{"engine": "plan", "op": "pushdown", "partition_by": nonNil(c.Data.PartBy), "chain": levels}
+		req := map[string]interface{}{"engine": "plan", "op": "pushdown", "partition_by": nonNil(c.Data.PartBy), "table_group_by": c.Data.keptNames(), "chain": levels}
 		var m struct {
 			Allowed bool `json:"allowed"`
 			Pre     bool `json:"allowed_pre_fix02"`
@@ -509,6 +509,9 @@ func (e *run) evalCheck(c Case, w *world, local, cluster Outcome, flat bool, cas
 	if q.Sub != nil {
 		return skip("from-subquery")
 	}
+	if len(c.Data.TableGB) > 0 {
+		return skip("table-with-its-own-group-by")
+	}
 	if q.AsOf != "" {
 		return skip("asof-until")
 	}
@@ -736,4 +739,26 @@ func (e *run) evalCheck(c Case, w *world, local, cluster Outcome, flat bool, cas
 			map[string]interface{}{"rows": m.Rows, "detail": d}, idx)
 	}
 	return nil
+}
+
+// keptNames renders the table's GROUP BY for the model's partitionKeysKept: per dimension its
+// name when goexpr reports the param of that same name as a one-to-one param of the
+// expression (the "param == name" rule of planner.partitionKeysKept), else a placeholder that
+// no partition key can equal.  Empty = GROUP BY *.
+func (d *Data) keptNames() []string {
+	out := []string{}
+	for _, g := range d.tableGroupBy() {
+		kept := false
+		g.Expr.WalkOneToOneParams(func(p string) {
+			if p == g.Name {
+				kept = true
+			}
+		})
+		if kept {
+			out = append(out, g.Name)
+		} else {
+			out = append(out, "#"+g.Name)
+		}
+	}
+	return out
 }
